@@ -33,7 +33,7 @@ PROFILE = S.GENERAL.but(
 
 
 def budget(tier):
-    return dict(examples=6000 if tier == 'quick' else 300000)
+    return dict(examples=6000 if tier == 'quick' else 120000)
 
 
 def strategy(tier):
